@@ -39,6 +39,12 @@ type caseC01 struct {
 }
 
 // baseSet lets the node's own issuer and wallet produce the documents of B.
+type baseCreds struct {
+	ldpOrg, ura, selfAttested vc.VerifiableCredential
+}
+
+var lastBaseCreds baseCreds
+
 func baseSet(e *env, iss, hold *party) []baseDoc {
 	var out []baseDoc
 	exp := tIssue.Add(20 * 365 * 24 * time.Hour)
@@ -60,15 +66,30 @@ func baseSet(e *env, iss, hold *party) []baseDoc {
 	}
 	ura := e.issue(templates()[1], iss, hold.did.String(), "ldp_vc", tIssue, &exp)
 	vpExp := time.Now().Add(24 * time.Hour)
+	// a self-attested credential of the holder without a proof of its own (protected by the presentation's proof)
+	selfID := ssi.MustParseURI(hold.did.String() + "#b0c9a9c0-5b1c-4b8e-9d0a-0a9c0c0f3a10")
+	sb, _ := json.Marshal(vc.VerifiableCredential{Context: uris(templates()[0].context...), ID: &selfID, Type: uris("VerifiableCredential", templates()[0].typ),
+		Issuer: hold.did.URI(), IssuanceDate: tIssue, CredentialSubject: []interface{}{templates()[0].subject(hold.did.String())}})
+	selfAttested, err := vc.ParseVerifiableCredential(string(sb))
+	if err != nil {
+		e.t.Fatal(err)
+	}
+	hURI := hold.did.URI()
+	lastBaseCreds = baseCreds{ldpOrg: ldpOrg, ura: ura, selfAttested: *selfAttested}
 	for _, vp := range []struct {
-		n, f  string
-		creds []vc.VerifiableCredential
+		n, f   string
+		holder *ssi.URI
+		creds  []vc.VerifiableCredential
 	}{
-		{"ldp-vp/1-ldp-vc", "ldp_vp", []vc.VerifiableCredential{ldpOrg}},
-		{"ldp-vp/ldp-vc+jwt-vc", "ldp_vp", []vc.VerifiableCredential{ura, jwtOrg}},
-		{"jwt-vp/ldp-vc+jwt-vc", "jwt_vp", []vc.VerifiableCredential{ldpOrg, jwtOrg}},
+		{"ldp-vp/1-ldp-vc", "ldp_vp", nil, []vc.VerifiableCredential{ldpOrg}},
+		{"ldp-vp/ldp-vc+jwt-vc", "ldp_vp", nil, []vc.VerifiableCredential{ura, jwtOrg}},
+		{"ldp-vp/2-ldp-vc", "ldp_vp", nil, []vc.VerifiableCredential{ldpOrg, ura}},
+		{"ldp-vp/self-attested+ldp-vc", "ldp_vp", &hURI, []vc.VerifiableCredential{*selfAttested, ura}},
+		{"ldp-vp/self-attested+jwt-vc", "ldp_vp", &hURI, []vc.VerifiableCredential{*selfAttested, jwtOrg}},
+		{"jwt-vp/ldp-vc+jwt-vc", "jwt_vp", nil, []vc.VerifiableCredential{ldpOrg, jwtOrg}},
+		{"jwt-vp/self-attested+ldp-vc", "jwt_vp", &hURI, []vc.VerifiableCredential{*selfAttested, ura}},
 	} {
-		p, err := e.present(nil, vp.f, created, &vpExp, nil, vp.creds...)
+		p, err := e.present(nil, vp.f, created, &vpExp, vp.holder, vp.creds...)
 		if err != nil {
 			e.t.Fatalf("present %s: %v", vp.n, err)
 		}
@@ -276,11 +297,101 @@ func TestVerifC01(t *testing.T) {
 		}
 	}
 
+	// ---- (2b) tamper of EMBEDDED credentials by the presenter itself: the mutated credential is presented anew (the
+	// wallet signs the presentation over the mutated credential), so only the credential's own proof can catch it
+	if !replay || rc.Clause == "tamper-embedded" {
+		tamperEmbedded(e, r, hold, &idx, replay, rc)
+	}
+
 	// ---- (4) presentation relations
 	if !replay || rc.Clause == "vp-relations" {
 		vpRelations(e, r, iss, hold, other, replay, rc)
 	}
 	r.Bound("cases", idx)
+}
+
+func tamperEmbedded(e *env, r *ev.Run, hold *party, idx *int, replay bool, rc caseC01) {
+	hURI := hold.did.URI()
+	bc := lastBaseCreds
+	created := time.Now().Add(-time.Minute)
+	vpExp := time.Now().Add(24 * time.Hour)
+	for _, cfg := range []struct {
+		name   string
+		holder *ssi.URI
+		creds  []vc.VerifiableCredential
+		pos    int
+	}{
+		{"2-ldp-vc/first", nil, []vc.VerifiableCredential{bc.ldpOrg, bc.ura}, 0},
+		{"2-ldp-vc/second", nil, []vc.VerifiableCredential{bc.ldpOrg, bc.ura}, 1},
+		{"self-attested+ldp-vc/second", &hURI, []vc.VerifiableCredential{bc.selfAttested, bc.ura}, 1},
+		{"ldp-vc+self-attested/first", &hURI, []vc.VerifiableCredential{bc.ura, bc.selfAttested}, 0},
+	} {
+		if replay && rc.Doc != cfg.name {
+			continue
+		}
+		origRaw, _ := json.Marshal(cfg.creds[cfg.pos])
+		o0, err := obs("vc", origRaw)
+		if err != nil {
+			e.t.Fatal(err)
+		}
+		doc, _ := enum.Decode(origRaw)
+		singles := enum.Singles(doc, enum.Options{Hostile: r.Thorough(), NoBigString: true})
+		r.Bound("singles-embedded:"+cfg.name, len(singles))
+		for _, m := range singles {
+			*idx++
+			if replay {
+				if m.Op != rc.Op || m.Path != rc.Path {
+					continue
+				}
+			} else if !r.Mine(*idx) {
+				continue
+			}
+			if r.Expired() {
+				return
+			}
+			mb := m.Bytes()
+			mc, err := vc.ParseVerifiableCredential(string(mb))
+			if err != nil {
+				r.Eval("tamper-embedded|" + cfg.name + "|" + m.Desc())
+				r.Outcome("embedded tamper: not a credential")
+				continue
+			}
+			o1, oerr := obs("vc", mb)
+			creds := append([]vc.VerifiableCredential{}, cfg.creds...)
+			creds[cfg.pos] = *mc
+			for _, vf := range []string{"ldp_vp", "jwt_vp"} {
+				vp, err := e.present(&hold.did, vf, created, &vpExp, cfg.holder, creds...)
+				key := "tamper-embedded|" + cfg.name + "|" + m.Desc() + "|" + vf
+				if string(mb) == string(origRaw) {
+					key = ""
+				}
+				r.Eval(key)
+				if err != nil {
+					r.Outcome("embedded tamper: wallet refuses")
+					continue
+				}
+				raw, _ := json.Marshal(vp)
+				ok, _ := e.apiVerifyVP(raw, nil)
+				if !ok {
+					r.Outcome("embedded tamper refused")
+					continue
+				}
+				if oerr == nil && o1 == o0 {
+					r.Outcome("embedded tamper accepted, observation unchanged")
+					continue
+				}
+				loc := location(m.Path)
+				cls := "defined-term-changed|vp-embedded|" + strings.Split(m.Op, ":")[0] + "|" + loc
+				what := fmt.Sprintf("a presentation (%s, %s) carrying credential %d after %s is reported valid: the credential's own proof does not cover what the node now reads", cfg.name, vf, cfg.pos, m.Desc())
+				if jsonld.AllFieldsDefined(e.loader.DocumentLoader(), mb) != nil {
+					cls = "undefined-term|vp-embedded|" + loc
+					what = fmt.Sprintf("a presentation (%s, %s) carrying credential %d after %s is reported valid: terms the JSON-LD context does not define are not covered by the credential's proof", cfg.name, vf, cfg.pos, m.Desc())
+				}
+				r.Outcome("embedded tamper accepted, observation CHANGED")
+				r.Violation("C01|tamper|"+cls, what, caseC01{Clause: "tamper-embedded", Doc: cfg.name, Op: m.Op, Path: m.Path, Input: string(raw)})
+			}
+		}
+	}
 }
 
 // tamperJWT mutates the decoded header and claims of a JWT credential / presentation.
